@@ -511,6 +511,10 @@ def frames(sit: int, a1: int, a2: int, a3: int, a4: int) -> bool:
     C = cls()
     k = SEL.get("k", 3)
     acts = []
+    if "first" in SEL:
+        if a1 != SEL["first"]:
+            return True
+        a1 = SEL["first"]
     for a in (a1, a2, a3, a4)[:k]:
         for c in range(len(ACTIONS)):
             if a == c:
@@ -520,10 +524,13 @@ def frames(sit: int, a1: int, a2: int, a3: int, a4: int) -> bool:
         if sit == c:
             sit = c
             break
-    if "first" in SEL and acts[0] != SEL["first"]:
-        return True
     reach()
-    with untraced():
+    return P_.native_call("vt.harness.rec", "frames_native", sit, acts)
+
+
+def frames_native(sit, acts):
+    C = cls()
+    if True:
         setup(sit, C)
         st = {"r": None, "commits": []}
         committed = _committed_now()
